@@ -56,7 +56,7 @@ MANIFEST = dict(
 DBDIR = vlib.REPO / "database"
 TOL = "1e-6"
 FLOOR = "1e-18"
-RUN_TIMEOUT = 45
+RUN_TIMEOUT = 40
 KEY_CD = "cd_music-species-without-charge-distribution"
 KEY_NEG = "negative-total-recovery-with-kinetics"
 
@@ -359,7 +359,7 @@ def judge_history(ctx, h, res, pm):
                 raise RuntimeError("pmodel inventory: " + ln)
         impossible = sorted(k for k in set(inv_before) | set(added) | {x for a in added_k for x in a} if k != "Charge" and
                             any(inv_before.get(k, 0) + a.get(k, 0) < -Fraction(1, 10**15) for a in (added_k or [added])))
-        if impossible:
+        if impossible and "kinetics" in plan["use"]:
             # the reaction removes more of an element than the cell holds: the property's equation cannot be met; the
             # only conforming outcome is an error. Known finding when KINETICS lets the call finish without one.
             out["impossible"] = out.get("impossible", 0) + 1
